@@ -1,9 +1,26 @@
 (* C03 -- runs are reproducible and unaffected by where they are stopped and resumed.
    Only statements, closed by the lemma that proves them, and their assumptions.  Proofs: Kernel/Stop*.v.
    All theorems are about Kernel/Model.v ([run], [run_prelude], [run_loop], [step]) and hold for every table of process
-   automata [codes : list prog] (any number of processes, any state types, any arguments). *)
+   automata [codes : list prog] (any number of processes, any state types, any arguments).
+
+   Vocabulary (definitions in Kernel/Order.v, Deliver.v, DeliverVal.v, StopFrame.v, StopInv.v, StopSpec.v, Stop.v):
+     exec codes s l s'        an execution of the kernel from s to s'; l lists, per transition, the agenda entry popped by a step
+                              (Some m) or None for a module-level call / the prelude of run()                      (C01)
+     calm s                   good (agenda invariant of C01) /\ uinv (C02) /\ no pending event carries a stop callback /\ every
+                              pending URGENT entry is due now /\ a triggered, unprocessed event has an agenda entry.  It holds
+                              in the initial state and is kept by module-level code, step(), run() and by every
+                              run(until=...) that returns (the C03_calm theorems): the design's hypothesis (iii) "no stale stop callback
+                              left by an earlier run() that ended with an exception" is this invariant.
+     num_entry hz s / num_start hz s    the sentinel entry (due hz, URGENT, next insertion id, a fresh event) and the state in
+                              which the loop of run(until=hz) starts
+     popped_before hz x l     every label of l is a popped entry that is x or is due strictly before hz
+     cb_chain fuel codes e l s s'   the callbacks l of e were invoked in order, each once, none ending the loop        (C02)
+     loop_start m rest s      the state in which the callback loop of the step that pops m starts                    (C02)
+     stable_kind k            every kind of event but Process events and conditions (whose outcome the kernel rewrites) (C02)
+     stop / run_stop / run_split / plan_returned   stop points, what they do, plans, "every run(until=...) of the plan returned" *)
 From Coq Require Import ZArith QArith List.
-From ONL Require Import Kernel.Model Kernel.Script Kernel.Stop.
+From ONL Require Import Kernel.Model Kernel.Script Kernel.Keys Kernel.Inv Kernel.Order Kernel.Deliver Kernel.DeliverWf
+  Kernel.DeliverVal Kernel.StopFrame Kernel.StopInv Kernel.Stop Kernel.StopSpec.
 Import ListNotations.
 
 (* ---- determinism ------------------------------------------------------------------------------------------------------- *)
@@ -26,3 +43,102 @@ Theorem C03_split_refuted_before_fix :
     logs S <> logs (fst U) /\ (length (logs S) < length (logs (fst U)))%nat.
 Proof. exact split_refuted_before_fix. Qed.
 Print Assumptions C03_split_refuted_before_fix.
+
+(* ---- the invariant behind the specifications of run(until=...) ------------------------------------------------------------ *)
+
+Theorem C03_calm_init : forall t0, calm (init_state t0).
+Proof. exact calm_init. Qed.
+Print Assumptions C03_calm_init.
+
+Theorem C03_calm_module_code : forall A codes (f : frag A) s, calm s -> calm (fst (exec_top codes f s)).
+Proof. exact (@calm_exec_top). Qed.
+Print Assumptions C03_calm_module_code.
+
+Theorem C03_calm_step : forall fuel codes s, calm s -> calm (fst (step fuel codes s)).
+Proof. exact calm_step. Qed.
+Print Assumptions C03_calm_step.
+
+Theorem C03_calm_run : forall fuel codes s, calm s -> calm (fst (run fuel codes UNone s)).
+Proof. exact calm_run_none. Qed.
+Print Assumptions C03_calm_run.
+
+(* a plan of stop points in which every run(until=...) returned (or was refused at once) ends in a calm state *)
+Theorem C03_calm_run_split : forall fuel codes plan s,
+  calm s -> plan_returned fuel codes plan s -> calm (fst (run_split fuel codes plan s)).
+Proof. exact calm_run_split. Qed.
+Print Assumptions C03_calm_run_split.
+
+(* ---- run(until = number) -------------------------------------------------------------------------------------------------- *)
+
+(* until <= now: ValueError, nothing changes (in any state) *)
+Theorem C03_run_until_number_past : forall fuel codes hz s,
+  hz <= now s -> run fuel codes (UNum hz) s = (s, RRaise (kexn EValue M_until_past)).
+Proof. exact run_num_past. Qed.
+Print Assumptions C03_run_until_number_past.
+
+(* until > now: see Kernel/StopSpec.v *)
+Theorem C03_run_until_number_spec : forall fuel codes hz s s' r,
+  calm s -> now s < hz -> run fuel codes (UNum hz) s = (s', r) ->
+  let x := num_entry hz s in
+  run_prelude (UNum hz) s = inr (num_start hz s) /\ agenda (num_start hz s) = agenda s ++ [x] /\
+  e_time x == hz /\ e_prio x = URGENT /\ e_eid x = next_eid s /\
+  exists l, exec codes (num_start hz s) l s' /\ popped_before hz x l /\ now s' <= hz /\
+    match r with
+    | RStop v => v = VNone /\ now s' == hz /\ (exists l0, l = l0 ++ [Some x] /\ ~ In (Some x) l0) /\
+                 (forall y, In y (agenda s') -> hz <= e_time y) /\ calm s'
+    | RRaise _ | RFuel | RBroken => True
+    | ROk | REmpty => False
+    end.
+Proof. exact run_until_number_spec. Qed.
+Print Assumptions C03_run_until_number_spec.
+
+(* ---- run(until = event) --------------------------------------------------------------------------------------------------- *)
+
+(* an already processed event: its value at once, without stepping (in any state) *)
+Theorem C03_run_until_event_processed : forall fuel codes e s ev,
+  get_event e s = Some ev -> cbs ev = None ->
+  run fuel codes (UEv e) s =
+  (s, match raw_value ev with Some v => RStop v | None => RRaise (kexn EAttribute M_value_pending) end).
+Proof. exact run_event_processed. Qed.
+Print Assumptions C03_run_until_event_processed.
+
+Theorem C03_run_until_event_spec : forall fuel codes e s s' r ev l0,
+  calm s -> get_event e s = Some ev -> cbs ev = Some l0 -> run fuel codes (UEv e) s = (s', r) ->
+  run_prelude (UEv e) s = inr (add_callback e CbStop s) /\
+  exists l, exec codes (add_callback e CbStop s) l s' /\
+    match r with
+    | RStop v =>
+        exists l0 m sk rest, l = l0 ++ [Some m] /\ not_for e l0 /\ e_ev m = e /\ exec codes (add_callback e CbStop s) l0 sk /\
+          pop_min (agenda sk) = Some (m, rest) /\ step fuel codes sk = (s', RStop v) /\
+          (exists evk lk, get_event e sk = Some evk /\ cbs evk = Some lk /\ cb_chain fuel codes e lk (loop_start m rest sk) s') /\
+          (exists sm evm, vgrows (loop_start m rest sk) sm /\ get_event e sm = Some evm /\ out evm = Some (Ok v)) /\
+          (exists ev', get_event e s' = Some ev' /\ cbs ev' = None /\ (stable_kind (kind ev') = true -> out ev' = Some (Ok v))) /\
+          calm s'
+    | RRaise x =>
+        (x = kexn ERuntime M_until_not_triggered /\ agenda s' = [] /\ not_for e l /\
+         exists ev', get_event e s' = Some ev' /\ out ev' = None) \/
+        (exists l0 m, l = l0 ++ [Some m] /\ not_for e l0 /\
+                      (e_ev m = e -> calm s' /\ exists ev', get_event e s' = Some ev' /\ cbs ev' = None))
+    | RFuel | RBroken => True
+    | ROk | REmpty => False
+    end.
+Proof. exact run_until_event_spec. Qed.
+Print Assumptions C03_run_until_event_spec.
+
+(* the agenda runs dry before the until-event is triggered: RuntimeError (never the AssertionError of run()) *)
+Theorem C03_run_until_event_exhausted : forall fuel codes e s sk,
+  je e s -> ok_steps fuel codes s sk -> agenda sk = [] ->
+  exists k, forall n, (k <= n)%nat -> run_loop n fuel codes (UEv e) s = (sk, RRaise (kexn ERuntime M_until_not_triggered)).
+Proof. exact run_until_event_exhausted. Qed.
+Print Assumptions C03_run_until_event_exhausted.
+
+Theorem C03_until_event_loop_invariant : forall e s ev l, calm s -> get_event e s = Some ev -> cbs ev = Some l -> je e (add_callback e CbStop s).
+Proof. exact je_start. Qed.
+Print Assumptions C03_until_event_loop_invariant.
+
+(* the step that answers "stop" has invoked every callback of its event (the repaired step()) *)
+Theorem C03_stop_after_all_callbacks : forall fuel codes s s' m rest ev l v,
+  step fuel codes s = (s', RStop v) -> pop_min (agenda s) = Some (m, rest) ->
+  get_event (e_ev m) s = Some ev -> cbs ev = Some l -> cb_chain fuel codes (e_ev m) l (loop_start m rest s) s'.
+Proof. exact step_stop_chain. Qed.
+Print Assumptions C03_stop_after_all_callbacks.
